@@ -45,8 +45,7 @@ package forwarder
 
 // ---- access control closures (C04) ----
 
-//@ globalinv ErrProxyAuthentication != nil && nonnil(ErrProxyLocalhost) && nonnil(ErrProxyDenied) && nonnil(ErrProxyOutsideAllowedTimeframe)
-//@ pred nonnil(e error) = e != nil
+//@ globalinv ErrProxyAuthentication != nil
 
 // basicAuth: a request is let through iff its Proxy-Authorization carries
 // exactly the configured credentials; otherwise ErrProxyAuthentication (-> 407).
@@ -73,5 +72,5 @@ package forwarder
 //@ property C04
 //@ requires req != nil && req.URL != nil && hp != nil
 //@ pure
-//@ ensures result == nil || result == ErrProxyLocalhost
-//@ ensures parseOK(toLower(urlHostname(req.URL))) && (isLoopbackIP(toLower(urlHostname(req.URL))) || isUnspecIP(toLower(urlHostname(req.URL)))) ==> result == ErrProxyLocalhost
+//@ ensures result == nil || result is denyError
+//@ ensures parseOK(toLower(urlHostname(req.URL))) && (isLoopbackIP(toLower(urlHostname(req.URL))) || isUnspecIP(toLower(urlHostname(req.URL)))) ==> result is denyError
